@@ -30,7 +30,7 @@ var xSamples = []struct {
 	{"BE", xlatesample.BE}, {"Str", xlatesample.Str}, {"Switch", xlatesample.Switch}, {"SwitchRet", xlatesample.SwitchRet},
 	{"IfMerge", xlatesample.IfMerge}, {"Swap", xlatesample.Swap}, {"RangeSum", xlatesample.RangeSum}, {"RangeMinMax", xlatesample.RangeMinMax},
 	{"Count", xlatesample.Count}, {"CountRet", xlatesample.CountRet}, {"Struct", xlatesample.Struct}, {"Ret0", xlatesample.Ret0},
-	{"Collect", xlatesample.Collect}, {"Make", xlatesample.Make}, {"Search", xlatesample.Search}, {"Widen", xlatesample.Widen},
+	{"Collect", xlatesample.Collect}, {"Make", xlatesample.Make}, {"Search", xlatesample.Search}, {"Widen", xlatesample.Widen}, {"SortDesc", xlatesample.SortDesc}, {"StrOrder", xlatesample.StrOrder},
 }
 
 // boundary values of a parameter type
@@ -55,7 +55,7 @@ func xGrid(t reflect.Type) []reflect.Value {
 			}
 		}
 	case reflect.String:
-		for _, v := range []string{"", "tcp", "ssl", "s", "udp", "tcpx"} {
+		for _, v := range []string{"", "tcp", "ssl", "s", "udp", "tcpx", "tc", "\xff", "tcq"} {
 			add(v)
 		}
 	case reflect.Slice:
